@@ -306,27 +306,39 @@ def consumeCharRef (m : Mach) : Mach × Sig :=
   | some _ => (m, .panic "Nested character references are impossible")
   | none => ({ m with charRef := some { inAttr := isAttrValueState m.state } }, .cont)
 
-/-- `emit_current_tag` (the caller has already set the default next state) -/
-def emitCurrentTag (pol : Pol) (m : Mach) : Mach × Sig :=
+/-- `emit_current_tag`, part 1: finish the pending attribute, remember the start tag name /
+report the end-tag errors -/
+def tagPrologue (m : Mach) : Mach :=
   let m := finishAttribute m
-  let name := m.tagName
-  let m := { m with tagName := [] }
-  let m := match m.tagKind with
-    | .startTag => { m with lastStartTag := some name }
-    | .endTag =>
-      let m := if !m.tagAttrs.isEmpty then emitErr m "Attributes on an end tag" else m
-      if m.tagSelfClosing then emitErr m "Self-closing end tag" else m
-  let tag : Tag := { kind := m.tagKind, name := name, selfClosing := m.tagSelfClosing,
-                     attrs := m.tagAttrs, hadDup := m.tagHadDup }
-  let m := { m with tagAttrs := [] }
-  let r := pol.onTag m.out tag
-  let m := emit m (.tag tag)
+  match m.tagKind with
+  | .startTag => { m with lastStartTag := some m.tagName }
+  | .endTag =>
+    let m := if !m.tagAttrs.isEmpty then emitErr m "Attributes on an end tag" else m
+    if m.tagSelfClosing then emitErr m "Self-closing end tag" else m
+
+/-- the tag token built from the registers -/
+def currentTag (m : Mach) : Tag :=
+  { kind := m.tagKind, name := m.tagName, selfClosing := m.tagSelfClosing,
+    attrs := m.tagAttrs, hadDup := m.tagHadDup }
+
+/-- name and attributes are moved into the token -/
+def takeTag (m : Mach) : Mach := { m with tagName := [], tagAttrs := [] }
+
+/-- what the tokenizer does with the sink's answer to a tag token -/
+def applySinkRes (m : Mach) (r : SinkRes) : Mach × Sig :=
   match r with
   | .continue_ => (m, .cont)
   | .plaintext => (to .plaintext m, .cont)
   | .script => (emit (to .data m) (.pause true), .script)
   | .rawData k => (to (.rawData k) m, .cont)
   | .indicator => (emit m (.pause false), .indicator)
+
+/-- `emit_current_tag` (the caller has already set the default next state) -/
+def emitCurrentTag (pol : Pol) (m : Mach) : Mach × Sig :=
+  let m := tagPrologue m
+  let tag := currentTag m
+  let m := takeTag m
+  applySinkRes (emit m (.tag tag)) (pol.onTag m.out tag)
 
 def emitTag (pol : Pol) (next : State) (m : Mach) : Mach × Sig := emitCurrentTag pol (to next m)
 
